@@ -733,3 +733,18 @@ def read_buffer_bounded_by(f, read_bb, bound_locals):
         return True, "caller's buffer (bounded separately)"
     # fixed-size scratch buffer: not bounded by the counter
     return False, "the buffer is not bounded by what is left to read"
+
+
+def find_slot_paths(facts, adt, type_rx, depth=0):
+    """field paths (tuples of field names) inside `adt` (through nested local structs) to a field whose type matches type_rx"""
+    out = []
+    a = facts.adts.get(adt)
+    if a is None or a["kind"] != "Struct" or depth > 3:
+        return out
+    for x in a["variants"][0]["fields"]:
+        if re.search(type_rx, x["ty"]):
+            out.append((x["name"],))
+        elif x["ty"] in facts.adts:
+            for sub in find_slot_paths(facts, x["ty"], type_rx, depth + 1):
+                out.append((x["name"],) + sub)
+    return out
